@@ -103,3 +103,47 @@ def check(chk: Check) -> None:
                    "once at definition time: every call that relies on the default shares it, so what "
                    "one call (one load, one IR) stored is seen by the next"
                    % (q, prm.arg, unparse(d)), 1)
+        # R00.4 a one-shot iterator bound to a local is consumed at most once
+        lazy_calls = {"chain", "from_iterable", "map", "filter", "zip", "iter", "enumerate", "reversed",
+                      "starmap", "islice"}
+
+        def _lazy(e: ast.AST, depth: int = 0) -> bool:
+            if isinstance(e, ast.GeneratorExp):
+                return True
+            if isinstance(e, ast.Call):
+                nm = e.func.attr if isinstance(e.func, ast.Attribute) else getattr(e.func, "id", None)
+                if nm in lazy_calls:
+                    return True
+                # a generator method / function of the package
+                if isinstance(e.func, ast.Attribute) and isinstance(e.func.value, ast.Name) and \
+                        e.func.value.id == f.self_name and f.cls is not None:
+                    g = f.cls.find_method(nm) if nm else None
+                    if g is not None and any(isinstance(x, (ast.Yield, ast.YieldFrom)) for x in walk_no_nested(g.node)):
+                        return True
+                return False
+            if isinstance(e, ast.Attribute) and isinstance(e.value, ast.Name) and e.value.id == f.self_name \
+                    and f.cls is not None and depth < 2:
+                for k in f.cls.mro_classes():
+                    pr = k.props.get(e.attr)
+                    if pr is not None and pr.getter is not None:
+                        gn = pr.getter.node
+                        if any(isinstance(x, (ast.Yield, ast.YieldFrom)) for x in walk_no_nested(gn)):
+                            return True
+                        rets_ = [r for r in walk_no_nested(gn) if isinstance(r, ast.Return) and r.value is not None]
+                        return bool(rets_) and all(_lazy(r.value, depth + 1) for r in rets_)
+            return False
+        counts_: dict = {}
+        for x in walk_no_nested(node):
+            if isinstance(x, ast.Name) and isinstance(x.ctx, ast.Store):
+                counts_[x.id] = counts_.get(x.id, 0) + 1
+        for x in walk_no_nested(node):
+            if isinstance(x, ast.Assign) and len(x.targets) == 1 and isinstance(x.targets[0], ast.Name) \
+                    and counts_.get(x.targets[0].id) == 1 and _lazy(x.value):
+                nm_ = x.targets[0].id
+                loads = [y for y in walk_no_nested(node) if isinstance(y, ast.Name) and y.id == nm_
+                         and isinstance(y.ctx, ast.Load)]
+                chk.rule("R00.4", "a local bound to a one-shot iterator (generator, chain, map, ...) is consumed at "
+                                  "most once: a second consumer sees it exhausted")
+                chk.ob("R00.4", "%s:one-shot(%s)" % (q, nm_), len(loads) <= 1, f.loc(x),
+                       "%s binds %s to a one-shot iterator (%s) and uses it %d times: every use after the "
+                       "first sees it exhausted (empty)" % (q, nm_, unparse(x.value)[:50], len(loads)), 1)
